@@ -97,7 +97,7 @@ def msg_tags(msg) -> list:
 
 
 def trace(lines, period: int = 1, snapshot_each: bool = False, mid_snapshot: bool = False, horizon: int = HORIZON,
-          patch=None) -> dict:
+          patch=None, tick_hook=None) -> dict:
     """Execute `lines`.  Report instants are the ends of ticks period-1, 2*period-1, ...; the report at the last instant
     is a snapshot (and, if mid_snapshot, the one in the middle too); the others are incremental.  snapshot_each: take an
     additional snapshot right after every incremental report (the queue is empty then, so it is independent of it).
@@ -115,6 +115,8 @@ def trace(lines, period: int = 1, snapshot_each: bool = False, mid_snapshot: boo
     for k in range(horizon):
         for name, v in input_script(k).items():
             run.set_input(name, v)
+        if tick_hook is not None:
+            tick_hook(run, k)
         ob = run.tick()
         if "tick_exception" in ob:
             tr["tick_exceptions"] += 1
